@@ -41,7 +41,7 @@ typedef struct { int op, d, n; } act_t;
 typedef struct { int trig, a, b; int nact; act_t acts[MAXA]; } ent_t;
 
 /* script */
-static int g_hints = 8, g_pool = 0;
+static int g_hints = 8, g_pool = 0, g_closefd = 0;    /* closefd: cb_close closes the descriptor */
 static int g_nd, g_kind[MAXD], g_rmode[MAXD];      /* rmode: 0 = all, k > 0 = one read of ≤ k */
 static act_t g_pre[MAXE]; static int g_npre;
 static ent_t *g_ent; static int g_nent;
@@ -51,7 +51,7 @@ static int g_nidle_scripted;
 static muggle_event_loop_t *g_ev;
 static muggle_event_context_t g_ctx[MAXD];
 static int g_peer[MAXD];                /* peer fd or -1 */
-static int g_pwr[MAXD], g_shut[MAXD], g_tried[MAXD], g_reg[MAXD];
+static int g_pwr[MAXD], g_shut[MAXD], g_tried[MAXD], g_reg[MAXD], g_rclosed[MAXD];
 static long g_written[MAXD], g_delivered[MAXD];
 static int g_closed_cb[MAXD], g_cleared_cb[MAXD];
 static int g_nwake, g_nidle, g_waits;
@@ -118,6 +118,7 @@ int __real_poll(struct pollfd *fds, nfds_t nfds, int timeout);
 /* wait (bounded) until the asynchronous part of a TCP action has reached the read end */
 static void settle_tcp(int d, short want, long want_queued)
 {
+	if (g_rclosed[d]) return;          /* the read end is gone: nothing to wait for */
 	for (int i = 0; i < 2000; i++) {
 		if (want_queued >= 0) {
 			int q = 0;
@@ -144,6 +145,7 @@ static void do_act(const act_t *a)
 		int n = a->n > 4096 ? 4096 : a->n;
 		for (int i = 0; i < n; i++) buf[i] = byte_at(d, g_written[d] + i);
 		ssize_t k = write(g_peer[d], buf, n);
+		if (g_rclosed[d]) break;               /* the read end is closed: EPIPE / reset, nobody listens */
 		if (g_shut[d]) {                       /* EPIPE (unix) or data answered by RST (tcp) */
 			if (g_kind[d] == K_TCP && k > 0) settle_tcp(d, POLLERR, -1);
 			break;
@@ -227,6 +229,10 @@ static void cb_close(muggle_event_loop_t *ev, muggle_event_context_t *ctx)
 	g_reg[d] = 0;
 	tr("C%d", d);
 	fire(T_CL, d, 0, 0);
+	if (g_closefd) {                   /* what the library's own socket layer does in its close callback */
+		muggle_ev_ctx_close(ctx);
+		g_rclosed[d] = 1;
+	}
 }
 static void cb_wake(muggle_event_loop_t *ev)
 {
@@ -260,10 +266,10 @@ static int on_block(void)      /* returns 1 when the run must be aborted */
 	else { act_t a = { A_XX, 0, 0 }; do_act(&a); }
 	return 0;
 }
-static int on_ready(void)
+static int on_ready(int n)
 {
 	if (++g_waits > MAX_WAITS) { tr("F"); muggle_evloop_exit(g_ev); return 1; }
-	tr("/");
+	tr(n < 0 ? "ERR" : "/");
 	return 0;
 }
 
@@ -276,7 +282,7 @@ int __wrap_poll(struct pollfd *fds, nfds_t nfds, int timeout)
 	if (!g_ev) return __real_poll(fds, nfds, timeout);
 	for (;;) {
 		int n = __real_poll(fds, nfds, 0);
-		if (n != 0) { if (on_ready()) return 0; return n; }
+		if (n != 0) { int e = errno; if (on_ready(n)) return 0; errno = e; return n; }
 		if (on_block()) return 0;
 	}
 }
@@ -288,7 +294,7 @@ int __wrap_select(int nf, fd_set *r, fd_set *w, fd_set *e, struct timeval *tv)
 		struct timeval z = { 0, 0 };
 		*r = in;
 		int n = __real_select(nf, r, w, e, &z);
-		if (n != 0) { if (on_ready()) return 0; return n; }
+		if (n != 0) { int e = errno; if (on_ready(n)) return 0; errno = e; return n; }
 		if (on_block()) { FD_ZERO(r); return 0; }
 	}
 }
@@ -297,7 +303,7 @@ int __wrap_epoll_wait(int epfd, struct epoll_event *evs, int max, int timeout)
 	if (!g_ev) return __real_epoll_wait(epfd, evs, max, timeout);
 	for (;;) {
 		int n = __real_epoll_wait(epfd, evs, max, 0);
-		if (n != 0) { if (on_ready()) return 0; return n; }
+		if (n != 0) { int e = errno; if (on_ready(n)) return 0; errno = e; return n; }
 		if (on_block()) return 0;
 	}
 }
@@ -341,7 +347,7 @@ static int is_num(const char *s) { if (!*s) return 0; for (; *s; s++) if (*s < '
 
 static void vh_reset(void)
 {
-	g_hints = 8; g_pool = 0; g_nd = 0; g_npre = 0; g_nent = 0; g_nidle_scripted = 0;
+	g_hints = 8; g_pool = 0; g_closefd = 0; g_nd = 0; g_npre = 0; g_nent = 0; g_nidle_scripted = 0;
 	memset(g_rmode, 0, sizeof g_rmode);
 	for (int i = 0; i < g_nruns; i++) free(g_runs[i]);
 	g_nruns = 0;
@@ -352,7 +358,7 @@ static void vh_reset(void)
 static void do_run(int type)
 {
 	memset(g_pwr, 0, sizeof g_pwr); memset(g_shut, 0, sizeof g_shut);
-	memset(g_tried, 0, sizeof g_tried); memset(g_reg, 0, sizeof g_reg); memset(g_written, 0, sizeof g_written);
+	memset(g_tried, 0, sizeof g_tried); memset(g_reg, 0, sizeof g_reg); memset(g_rclosed, 0, sizeof g_rclosed); memset(g_written, 0, sizeof g_written);
 	memset(g_delivered, 0, sizeof g_delivered); memset(g_closed_cb, 0, sizeof g_closed_cb);
 	memset(g_cleared_cb, 0, sizeof g_cleared_cb);
 	g_nwake = g_nidle = g_waits = 0; g_trlen = 0;
@@ -387,10 +393,10 @@ static void do_run(int type)
 		 * ephemeral ports with TIME_WAIT sockets */
 		struct linger lg = { 1, 0 };
 		if (g_kind[d] == K_TCP) {
-			setsockopt(RFD(d), SOL_SOCKET, SO_LINGER, &lg, sizeof lg);
+			if (!g_rclosed[d]) setsockopt(RFD(d), SOL_SOCKET, SO_LINGER, &lg, sizeof lg);
 			if (g_peer[d] >= 0) setsockopt(g_peer[d], SOL_SOCKET, SO_LINGER, &lg, sizeof lg);
 		}
-		close(RFD(d));
+		if (!g_rclosed[d]) close(RFD(d));
 		if (g_peer[d] >= 0) close(g_peer[d]);
 	}
 	/* outcomes */
@@ -411,6 +417,8 @@ static void vh_op(int argc, char **argv)
 	const char *op = argv[0];
 	if (!strcmp(op, "cfg") && argc >= 3 && is_num(argv[1])) {
 		g_hints = (int)vh_ll(argv[1]); g_pool = (int)vh_ll(argv[2]) != 0;
+		g_closefd = 0;
+		for (int i = 3; i < argc; i++) if (!strcmp(argv[i], "C")) g_closefd = 1;
 		printf("ok\n"); return;
 	}
 	if (!strcmp(op, "fd") && argc == 2 && g_nd < MAXD) {
